@@ -1,4 +1,5 @@
 """C18 — remote token deployments announce the registered token's true id and metadata."""
+import re
 from rk import *
 from rules.itslib import *
 from rules.c11 import is_token_id, is_deploy_salt, is_canonical_salt, is_u8_max
@@ -15,6 +16,13 @@ EXPLAIN = ('ITS deploy_remote_interchain_token / deploy_remote_canonical_token: 
            'payload to gas service and gateway, payer = caller/spender, gas_token parameter); (R6) no token-moving call.')
 NOT_DECIDED = 'honesty of the registered token\'s metadata getters (T8); byte-exact ABI encoding (T7).'
 ASSUME = ['T1', 'T2', 'T3', 'T6', 'T7', 'T8']
+
+
+def is_u8_try_from(t, src_pred):
+    """u8::try_from(x) (or its Ok payload) with x accepted by src_pred"""
+    t = core(t)
+    return t[0] == 'call' and re.search(r'core::convert::num::<impl core::convert::TryFrom<u32> for u8>::try_from$', t[1]) is not None \
+        and len(t[2]) == 1 and src_pred(t[2][0])
 
 
 def check_entry(P, rep, en, payer_i, dest_i, gas_i, salt_pred, need_auth):
@@ -41,7 +49,9 @@ def check_entry(P, rep, en, payer_i, dest_i, gas_i, salt_pred, need_auth):
     res = lambda m: (lambda t: core(t)[0] == 'call' and len(core(t)) > 3 and tuple(core(t)[3]) == vals.get(m))
     guards = [
         ('token registered under the derived id', reg),
-        ('decimals <= 255', guard_sel(g, lambda c_: c_[0] == 'cmp' and c_[1] == 'le' and res('decimals')(c_[2]) and is_u8_max(c_[3]))),
+        ('decimals <= 255', guard_sel(g, lambda c_: (c_[0] == 'cmp' and c_[1] == 'le' and res('decimals')(c_[2]) and is_u8_max(c_[3]))
+                                      # the checked spelling: u8::try_from(decimals) is Ok exactly when decimals <= 255
+                                      or (c_[0] == 'ok' and is_u8_try_from(c_[1], res('decimals'))))),
         ('name non-empty', guard_sel(g, lambda c_: c_[0] == 'false' and c_[1][0] == 'call' and c_[1][1].endswith('String::is_empty') and res('name')(c_[1][2][0]))),
         ('symbol non-empty', guard_sel(g, lambda c_: c_[0] == 'false' and c_[1][0] == 'call' and c_[1][1].endswith('String::is_empty') and res('symbol')(c_[1][2][0]))),
     ]
@@ -66,7 +76,7 @@ def check_entry(P, rep, en, payer_i, dest_i, gas_i, salt_pred, need_auth):
         okn = nm is not None and res('name')(nm)
         oks = sy is not None and res('symbol')(sy)
         d = core(f.get('decimals', ('u',)))
-        okd = d[0] == 'cast' and d[1] == 'u8' and res('decimals')(d[3])
+        okd = (d[0] == 'cast' and d[1] == 'u8' and res('decimals')(d[3])) or is_u8_try_from(d, res('decimals'))
         okmin = opt_bytes(f.get('minter', ('u',))) == 'EMPTY'
         rep.check(okm and oki and okn and oks and okd and okmin, 'C18.R5', '%s:announced-message' % en,
                   'announced DeployInterchainToken{id, name(), symbol(), decimals() as u8, no minter} of the registered token',
